@@ -23,6 +23,7 @@ type vNDValue struct {
 type vCex struct {
 	ND     []vNDValue     `json:"nd"`
 	Params map[string]int `json:"params"`
+	Entry  string         `json:"entry"`
 }
 
 var (
@@ -35,19 +36,38 @@ var (
 
 func vLoad() {
 	vCexOnce.Do(func() {
-		p := os.Getenv("VERIF_CEX")
-		if p == "" {
-			panic("VERIF-SHIM: VERIF_CEX not set")
+		if vCexData.ND != nil || vCexData.Entry != "" {
+			return
 		}
-		b, err := os.ReadFile(p)
-		if err != nil {
-			panic("VERIF-SHIM: " + err.Error())
-		}
-		if err := json.Unmarshal(b, &vCexData); err != nil {
-			panic("VERIF-SHIM: " + err.Error())
-		}
+		vReadCex(os.Getenv("VERIF_CEX"))
 	})
 }
+
+func vReadCex(p string) {
+	if p == "" {
+		panic("VERIF-SHIM: VERIF_CEX not set")
+	}
+	b, err := os.ReadFile(p)
+	if err != nil {
+		panic("VERIF-SHIM: " + err.Error())
+	}
+	vCexData = vCex{}
+	if err := json.Unmarshal(b, &vCexData); err != nil {
+		panic("VERIF-SHIM: " + err.Error())
+	}
+	vCexPos = 0
+	vTrace = nil
+	vTok = 0
+}
+
+// vResetCex loads another recorded assignment (used by the replay test).
+func vResetCex(p string) {
+	vMu.Lock()
+	defer vMu.Unlock()
+	vReadCex(p)
+}
+
+func vCexEntry() string { return vCexData.Entry }
 
 func vNext(name, kind string) []uint64 {
 	vLoad()
